@@ -11,7 +11,7 @@ RULE = ("memory: histories of add_file on a blank DiskFile (default or permuted 
         "many one-granule files, few large files (up to 28 granules = 64 KiB), mixtures - continued until the accounting model "
         "says full and one step beyond. After every add: exactly n = stream_length // 2304 + 1 FAT entries changed, all "
         "from $FF, one new directory entry; a file needing more granules than are free must raise. host: the same through "
-        "VirtualFile(open, add, save(append)) on a host file, as the CLIs do; a refused add must raise and leave the host "
+        "VirtualFile(open, add, save(append)) on a host file (absent at first, or an existing freshly formatted image), as the CLIs do; a refused add must raise and leave the host "
         "file byte-identical; later smaller files must still be accepted. Enumerated: 68 one-granule files then a 69th; "
         "three files filling exactly 68 granules and one granule more; stream lengths on both sides of every granule multiple up "
         "to 6. Non-trivial = the history ends within 2 granules of full or contains a refused add; distinct by case hash.")
@@ -68,7 +68,8 @@ def _top_up(files, cuts, last_kind, leave):
 
 _filled = st.builds(_top_up, _history, st.lists(st.integers(0, 27), min_size=1, max_size=6), _kind, st.integers(0, 2))
 _memory = st.fixed_dictionaries(dict(mode=st.just("memory"), order=filegen.fill_order, files=st.one_of(_history, _filled, _filled)))
-_host = st.fixed_dictionaries(dict(mode=st.just("host"), files=st.lists(st.one_of(_large, _large, _any), min_size=3, max_size=9)))
+_host = st.fixed_dictionaries(dict(mode=st.just("host"), files=st.lists(st.one_of(_large, _large, _any), min_size=3, max_size=9),
+                                   blank_start=st.booleans()))
 
 
 def enumerated(tier, seed):
@@ -84,6 +85,7 @@ def enumerated(tier, seed):
     for need in (29, 40, 68):
         yield dict(mode="memory", order=None, files=[_sized("ascii", need, 0, 1), _sized("ascii", 68 - need + 1, 0, 2), _sized("ascii", max(68 - need, 1), 0, 3)])
     yield dict(mode="host", files=[_sized("ascii", 30, 0, 1), _sized("ascii", 38, -1, 2), _sized("ml", 1, 0, 3)])
+    yield dict(mode="host", blank_start=True, files=[_sized("ml", 1, 5, 1), _sized("basic", 2, 0, 2), _sized("ascii", 65, 0, 3), _sized("ml", 1, 0, 4)])
     yield dict(mode="host", files=[_sized("ml", 28, 0, 1), _sized("ml", 28, 0, 2), _sized("ml", 13, 0, 3), _sized("ml", 12, 0, 4), _sized("ascii", 1, 0, 5)])
     yield dict(mode="host", files=[_sized("basic", 28, 0, 1), _sized("ascii", 28, 0, 2), _sized("ascii", 13, 0, 3), _sized("ascii", 12, 0, 4), _sized("ml", 1, 0, 5)])
 
@@ -158,6 +160,11 @@ def execute(case):
         stored = []
         with driver.TempDir() as tmp:
             path = os.path.join(tmp, "disk.dsk")
+            if case.get("blank_start"):
+                # the empty disk is an existing host file (a freshly formatted image: 161,280 bytes of $FF)
+                labels.append("blank_image_file")
+                with open(path, "wb") as fh:
+                    fh.write(b"\xff" * dskref.IMAGE_SIZE)
             for idx, f in enumerate(files):
                 need = filegen.stream_len(f) // 2304 + 1
                 data = filegen.expand(f["data"])
